@@ -42,6 +42,15 @@ theorem C06_durable_merge_exact {d : GD} (h : ReachableD Shape.allTrue true true
       recovered (afterPowerFailure d) = recovered (d.a.g.log.take d.synced) :=
   ⟨(reachableD_dinv h).1, powerFailure_prefix h⟩
 
+/-- the page cache may have written back more than what was explicitly flushed: for EVERY survivor
+    frontier `j ≥ synced` the restart recovers the replay of `log.take j` (for `j ≥ |log|` that is the
+    whole log) -/
+theorem C06_durable_merge_survivors {d : GD} (h : ReachableD Shape.allTrue true true d) {j : Nat}
+    (hj : d.synced ≤ j) :
+    recovered (afterPowerFailureAt d j) = recovered (d.a.g.log.take j) ∧
+      afterPowerFailureAt d d.synced = afterPowerFailure d :=
+  ⟨powerFailureAt_prefix h hj, afterPowerFailureAt_synced d⟩
+
 /-- "in particular": after a finished merge `(n, out)`, a key whose value at the boundary (all of
     it flushed: `n ≤ synced`) was NOT rewritten by the merge has a superseding record — a newer put
     or a tombstone — inside the flushed part `[n, synced)` of the post-boundary log. -/
